@@ -10,7 +10,7 @@ import tempfile
 import zlib
 
 from harness.common import Ck, coq_bytes, coq_list, coq_str, parse_coq_N_list
-from translate import c13_api, c13_archname, c13_nested, c13_nullstr, c13_vpk
+from translate import c13_api, c13_archname, c13_dirprog, c13_names, c13_nested, c13_nullstr, c13_vpk
 
 MANIFEST = dict(
     technique='Rocq proof: whole-history refinement of the executable VPK state machine to a plain map (invariant + induction over the '
@@ -22,7 +22,11 @@ MANIFEST = dict(
               '__delitem__, new_file executed symbolically on a small heap, FileInfo.write/read/verify executed on symbolic values into decision tables '
               '(24 placement rows, 4 read rows) that are judged in Coq against write_info/read_info, the truth table of __exit__, OpenModes.writable, '
               'writability guards, _check_arch_index and the name validation executed on probe values, '
-              'load_dirfile reset, listing walks) with kernel-checked instance obligations + vm_compute correspondence (histories on real '
+              'load_dirfile reset, listing walks; round 4: the statement structure of write_dirfile and load_dirfile compiled into programs with '
+              'interpreters (file buffer with a cursor / byte stream) proved equal to the codec on all inputs, _join_file_parts executed on symbolic '
+              'strings into a table, _get_file_parts executed for the three name forms into a description, the placement and read tables given a '
+              'meaning of their own, one composed statement c13_property with its hypotheses as a single boolean on the generated objects) '
+              'with kernel-checked instance obligations + vm_compute correspondence (histories on real '
               'directories byte-exact incl. with-blocks and load_dirfile() on the same object, independent decode incl. version 2 and damaged '
               'files, archive names really opened, name forms, NUL-terminated streams, nested dicts) + oracle search with a strict independent '
               'decoder',
@@ -48,7 +52,20 @@ MANIFEST = dict(
          'flat delete of the state machine) for every tree without a well-formedness assumption; for dicts without duplicate keys (an invariant of '
          'new_file/__delitem__) what __iter__ walks is exactly the table of the state machine after the same operations; the placement decision '
          'functions want_cut/want_dest/want_src against which the symbolic tables of FileInfo.write/read/verify are checked are write_info / '
-         'read_info / verify_info of the model for all inputs; wrong variants are refuted by computed witnesses.',
+         'read_info / verify_info of the model for all inputs; wrong variants are refuted by computed witnesses. Round 4: '
+         'c13_write_dirfile_program_is_encoder / c13_load_dirfile_program_is_decoder: the statements of write_dirfile / load_dirfile as read from '
+         'the source (header, mark, three nested loops over sorted dicts skipping empty ones, string / entry / preload, one NUL after each level, tree '
+         'length measured before footer_data and patched in at offset 8; header checks, version-2 fields skipped, the two sentinel rewrites, '
+         'terminator check, preload read, early exit, footer) run by an interpreter give exactly enc_file / dec_file_v for every accepted program and '
+         'every input, and the reader inverts the writer (c13_dirfile_programs_roundtrip); c13_write_table_is_write_info / '
+         'c13_read_table_is_read_info: FileInfo.write / read / verify run from the translated tables are write_info / read_info / verify_info; '
+         'c13_join_table_is_model, c13_get_parts_description_is_model, c13_listed_name_resolves, c13_generated_listed_name_resolves, '
+         'c13_join_of_parts: both name helpers as generated objects, _get_file_parts o _join_file_parts = id on listable keys and '
+         '_join_file_parts o _get_file_parts = id on names in listed form, with the trailing-dot class carved out exactly (refuted by witness); '
+         'c13_property: all parts in one statement under the single hypothesis c13_hyps (a boolean on the fourteen generated objects, '
+         'discharged for today\'s source on every run); c13_generated_machine_step / _history: the state machine assembled from the generated '
+         'objects (write from the placement table, write_dirfile / reopen as the translated programs) answers as the hand-written machine '
+         'whenever it answers, so the history theorem holds for it; the machine correspondence runs plain histories through it.',
     note='The model SM/Vpk.v (step/run), the codec Fmt/VpkDir.v/VpkDirV2.v, Fmt/VpkName.v and the string primitives of Fmt/VpkArchName.v are '
          'hand-written and tied to srctools.vpk by differential runs on every run (not by proof): histories on real temp directories compared '
          'byte-exactly, decode of written/damaged/version-2 files, the archive files really opened by the three get_arch_filename sites, name '
@@ -58,13 +75,13 @@ MANIFEST = dict(
          'parameter of the name theorems), OS append/seek semantics (archives modelled as append-only byte lists; the "ab" open mode and '
          'seek(0, SEEK_END) are a translated site). Premises that are real limits of the code: a write whose CRC-32 equals the stored one is '
          'skipped (collision premise); fields >= 4 GiB make write_dirfile raise. Only searched (not modelled): add_folder, extract_all, the '
-         'non-default arguments of filenames/fileinfos/folders, FileInfo.size. Outside: writing version 2, the root= argument, script_write, '
+         'non-default arguments of filenames/fileinfos/folders, FileInfo.size, the root= argument, script_write. Outside: writing version 2, '
          'VPKFileSystem, stale FileInfo handles, other processes, archive files present before the history, a load_dirfile() on the same object '
          'that fails half-way. File names whose last component ends in "." are listed without the dot (known finding name-trailing-dot).',
 )
 
 IMPORTS = ['Coq.Lists.List', 'Coq.NArith.NArith', 'SV.Fmt.VpkDir', 'SV.SM.Vpk', 'SV.Fmt.VpkArchName', 'SV.SM.VpkCorr', 'SV.Gen.VpkPlace_gen',
-           'SV.Gen.VpkArchName_gen', 'SV.Fmt.VpkNullStr', 'SV.Gen.VpkNullStr_gen', 'SV.SM.VpkNested', 'SV.Gen.VpkNested_gen', 'SV.SM.VpkApi', 'SV.Gen.VpkApi_gen', 'SV.SM.VpkNestedMap', 'SV.SM.VpkPlace']
+           'SV.Gen.VpkArchName_gen', 'SV.Fmt.VpkNullStr', 'SV.Gen.VpkNullStr_gen', 'SV.SM.VpkNested', 'SV.Gen.VpkNested_gen', 'SV.SM.VpkApi', 'SV.Gen.VpkApi_gen', 'SV.SM.VpkNestedMap', 'SV.SM.VpkPlace', 'SV.Fmt.VpkNameJoin', 'SV.Gen.VpkNames_gen', 'SV.Fmt.VpkDirProg', 'SV.Fmt.VpkDirRead', 'SV.Gen.VpkDirProg_gen', 'SV.SM.VpkPlaceTable', 'SV.SM.VpkGenMachine']
 PRE = 'Import ListNotations. Open Scope N_scope.\n'
 
 R_OK, R_RO, R_EXISTS, R_MISSING, R_BADNAME, R_BADIDX, R_BADDIR, R_EXC = 0, 1, 2, 3, 4, 5, 6, 9
@@ -377,8 +394,51 @@ class _Boom(Exception):
     pass
 
 
+class ImplTimeout(BaseException):
+    """A call into srctools.vpk did not return within the deadline (a fault that makes a loop spin). Derived from BaseException so that
+    the `except Exception` clauses that classify the implementation's own errors do not swallow it; turned into a failing input."""
+
+
+IMPL_DEADLINE_S = 60        # one history normally takes milliseconds (the largest, 300 000-byte files, well under a second)
+
+
+class impl_deadline:
+    """`with impl_deadline():` raises ImplTimeout in the main thread when the block runs longer than IMPL_DEADLINE_S (SIGALRM)."""
+
+    def __init__(self, seconds: int = IMPL_DEADLINE_S):
+        self.seconds = seconds
+
+    def __enter__(self):
+        import signal
+        import threading
+        self.active = threading.current_thread() is threading.main_thread() and hasattr(signal, 'SIGALRM')
+        if self.active:
+            def on_alarm(signum, frame):
+                raise ImplTimeout(f'no answer from srctools.vpk within {self.seconds}s')
+            import time
+            self.t0 = time.monotonic()
+            self.old = signal.signal(signal.SIGALRM, on_alarm)
+            self.outer = signal.alarm(self.seconds)       # seconds left on an enclosing deadline (0 = none)
+        return self
+
+    def __exit__(self, *exc):
+        if self.active:
+            import signal
+            import time
+            signal.alarm(0)
+            signal.signal(signal.SIGALRM, self.old)
+            if self.outer:
+                signal.alarm(max(1, self.outer - int(time.monotonic() - self.t0)))
+        return False
+
+
 def run_impl(case: dict, want_files: bool = False) -> dict:
-    """Run a history on the real implementation in a fresh directory."""
+    """Run a history on the real implementation in a fresh directory (under a deadline: ImplTimeout)."""
+    with impl_deadline():
+        return _run_impl(case, want_files)
+
+
+def _run_impl(case: dict, want_files: bool = False) -> dict:
     from srctools.vpk import VPK
     cfg = case['cfg']
     d = tempfile.mkdtemp(prefix='c13_', dir=os.environ.get('VERIF_SCRATCH', '/var/tmp'))
@@ -550,6 +610,8 @@ def check_case(case: dict) -> tuple[str, str, int] | None:
     exp = run_spec(case)
     try:
         got = run_impl(case)
+    except ImplTimeout as e:
+        return ('implementation-hangs', f'the history does not finish: {e}', -1)
     except Exception as e:      # noqa
         return (f'harness-exception:{type(e).__name__}', str(e)[:300], -1)
     cfg = case['cfg']
@@ -691,8 +753,8 @@ LONG_CORPUS = [{'cfg': {'dir': True, 'limit': 4}, 'ops': [('add', 'k.t', 's', (2
 
 
 def search(ck: Ck) -> None:
-    n_small = bud(ck, 400, 1500, 6000)
-    n_big = bud(ck, 14, 40, 300)
+    n_small = bud(ck, 320, 1500, 6000)
+    n_big = bud(ck, 10, 40, 300)
     found: dict[str, tuple] = {}
     cases = list(CORPUS) + list(LONG_CORPUS)
     for j, nm in enumerate(LONG_NAMES):     # every position x every boundary length, alone in an archive and next to another file
@@ -824,6 +886,79 @@ def folder_stream(ck: Ck) -> None:
                 shutil.rmtree(d, ignore_errors=True)
 
 
+ROOT_CASES = [
+    # (name form, root, where the file has to end up)
+    (('/abs/root/sub', 'f.txt'), '/abs/root', ('sub', 'f', 'txt')),
+    ('/abs/root/a/b.c', '/abs/root', ('a', 'b', 'c')),
+    (('/abs/root', 'top.t'), '/abs/root', ('', 'top', 't')),
+    (('x/y/z', 'n', 'e'), 'x', ('y/z', 'n', 'e')),
+    ('x/y/z/n.e', 'x/y', ('z', 'n', 'e')),
+    ('x/y/.hidden', 'x', ('y', '', 'hidden')),
+]
+
+
+def root_and_script_stream(ck: Ck) -> None:
+    """The `root=` argument of new_file / add_file (the name is taken relative to root) and the command line entry point script_write
+    (a directory tree packed into <folder>_dir.vpk + numbered archives): only searched, not modelled."""
+    import contextlib
+    import io
+    from srctools import vpk as vpkmod
+    for j, (form, root, want_key) in enumerate(ROOT_CASES):
+        d = tempfile.mkdtemp(prefix='c13r_', dir=os.environ.get('VERIF_SCRATCH', '/var/tmp'))
+        ck.count('oracle_root_cases')
+        case = {'name': form, 'root': root, 'expected_entry': want_key, 'how': 'VPK(mode="w").add_file(name, data, root=root); write_dirfile(); VPK(mode="r")'}
+        try:
+            with impl_deadline():
+                path = os.path.join(d, 'pak_dir.vpk')
+                v = vpkmod.VPK(path, mode='w', dir_data_limit=[4, None, 1024][j % 3])
+                data = gen_data(1 + j % 3, [9, 2000, 3][j % 3])
+                if j % 2:
+                    v.new_file(form, root).write(data, 0)
+                else:
+                    v.add_file(form, data, root)
+                v.write_dirfile()
+                got = observe(vpkmod.VPK(path, mode='r'))
+            if got != {want_key: (dg(data), True)}:
+                ck.violation('root-argument-mismatch', f'add_file/new_file({form!r}, root={root!r}) then write_dirfile + reopen gives {sorted(got)[:3]}, expected the entry {want_key}', {'root_case': case})
+            else:
+                ck.seen(('root', j))
+        except ImplTimeout as e:
+            ck.violation('implementation-hangs', f'add_file with root=: {e}', {'root_case': case})
+        except Exception as e:      # noqa
+            ck.violation('root-argument-exception', f'add_file/new_file({form!r}, root={root!r}) raised {type(e).__name__}: {e}'[:300], {'root_case': case})
+        finally:
+            shutil.rmtree(d, ignore_errors=True)
+    for ti, tree in enumerate(FOLDER_TREES):
+        d = tempfile.mkdtemp(prefix='c13s_', dir=os.environ.get('VERIF_SCRATCH', '/var/tmp'))
+        ck.count('oracle_script_write_cases')
+        case = {'tree': tree, 'how': 'checks.c13.root_and_script_stream: srctools.vpk.script_write([<dir>/content]); VPK(<dir>/content_dir.vpk)'}
+        try:
+            src = os.path.join(d, 'content')
+            for rel, spec in tree.items():
+                os.makedirs(os.path.dirname(os.path.join(src, rel)), exist_ok=True)
+                with open(os.path.join(src, rel), 'wb') as f:
+                    f.write(gen_data(*spec))
+            want = {}
+            for rel, spec in tree.items():
+                rd, _, fn = rel.rpartition('/')
+                want[ref_parts((rd, fn))] = (dg(gen_data(*spec)), True)
+            with impl_deadline(), contextlib.redirect_stdout(io.StringIO()):
+                vpkmod.script_write([src])
+                got = observe(vpkmod.VPK(os.path.join(d, 'content_dir.vpk'), mode='r'))
+            others = sorted(x for x in os.listdir(d) if x != 'content' and not re.fullmatch(r'content_(dir|\d\d\d)\.vpk', x))
+            if got != want or others:
+                ck.violation('script_write-mismatch', f'script_write: missing {sorted(set(want) - set(got))[:3]} extra {sorted(set(got) - set(want))[:3]} '
+                             f'differing {[k for k in want if k in got and got[k] != want[k]][:3]} unexpected files {others[:3]}', {'script_case': case})
+            else:
+                ck.seen(('script', ti))
+        except ImplTimeout as e:
+            ck.violation('implementation-hangs', f'script_write: {e}', {'script_case': case})
+        except Exception as e:      # noqa
+            ck.violation('script_write-exception', f'script_write raised {type(e).__name__}: {e}'[:300], {'script_case': case})
+        finally:
+            shutil.rmtree(d, ignore_errors=True)
+
+
 # ------------------------------------------------------------------------------------------------ Coq literals
 def cbytes(b: bytes) -> str:
     """A byte string as a Coq term of type list N; runs of one byte become `nrep byte count` (SM/VpkCorr.v) so that the long
@@ -900,9 +1035,10 @@ def c_dg(d) -> str:
 def corr_machine(ck: Ck) -> None:
     """SM/Vpk.v run on the same histories as the implementation: per-op code and summary, final per-file digests,
     byte-exact directory file and archives (length + CRC32)."""
-    n_small = bud(ck, 170, 600, 2500)
-    n_big = bud(ck, 3, 8, 40)
-    cases = [c for c in CORPUS] + list(LONG_CORPUS)
+    n_small = bud(ck, 100, 600, 2500)
+    n_big = bud(ck, 2, 8, 40)
+    # quick tier: every tree-string position at 256 and 1000 characters; escalated / thorough: also 255 and 257
+    cases = [c for c in CORPUS] + (list(LONG_CORPUS) if ck.thorough or ck.tie_broken else LONG_CORPUS[1::2])
     for _ in range(n_small):
         cases.append(gen_case(ck.rng, small=True))
     for _ in range(n_big):
@@ -918,6 +1054,9 @@ def corr_machine(ck: Ck) -> None:
                 ck.hist('machine_api_ops', o[0] + ((':normal' if o[1] else ':exception') if o[0] == 'exit' else ''))
         try:
             got = run_impl(case)
+        except ImplTimeout as e:
+            ck.violation('implementation-hangs', f'the history does not finish: {e}', {'case': case, 'how': 'checks.c13.check_case(case)'})
+            continue
         except Exception as e:      # noqa
             ck.notes.append(f'corr_machine: implementation run failed: {e!r}')
             continue
@@ -930,28 +1069,37 @@ def corr_machine(ck: Ck) -> None:
             tr += [s['code'], len(o), sum(d[0] + d[1] for d, _ in o.values()) % 2**32, int(all(v for _, v in o.values()))]
         fin = coq_list(f'({c_key(k)}, ({c_dg(d)}, {"true" if v else "false"}))' for k, (d, v) in sorted(got['steps'][-1]['obs'].items()))
         ars = coq_list(f'({i}, {c_dg(dg(b))})' for i, b in sorted(got['archs'].items()))
-        lits.append(f'({c_cfg(case["cfg"])}, {coq_list(cops)}, {coq_list(str(x) for x in tr)}, {fin if fin != "[]" else "@nil obs_t"}, '
-                    f'{c_dg(dg(got["disk"]))}, {ars if ars != "[]" else "@nil (N * (N * N))"})')
+        plain = not any(o[0] in ('exit', 'reload') for o in case['ops'])
+        if plain:       # plain histories run through the machine assembled from the generated objects (gstep), the others through xstep
+            cops = [c_op(o) for o in case['ops']]
+        lits.append((plain, f'({c_cfg(case["cfg"])}, {coq_list(cops)}, {coq_list(str(x) for x in tr)}, {fin if fin != "[]" else "@nil obs_t"}, '
+                     f'{c_dg(dg(got["disk"]))}, {ars if ars != "[]" else "@nil (N * (N * N))"})'))
         kept.append(case)
+        ck.hist('machine_model', 'generated machine (gstep over placement table + dirfile programs)' if plain else 'xstep over the __exit__ table')
         ck.count('corr_histories')
         if len(got['steps'][-1]['obs']) >= 1:
             ck.seen(('corr', repr(case)))
     bad: list[tuple[int, int]] = []
     fn = ('(fun c : vcfg * list xop * list N * list obs_t * (N * N) * list (N * (N * N)) => '
           'let \'(cf, ops, tr, fin, dsk, ars) := c in check_xcase g_exit_table cf ops tr fin dsk ars)')
-    for lo in range(0, len(lits), 250):
-        part = lits[lo:lo + 250]
-        vals = ck.coq_eval(IMPORTS, [f'map {fn} {coq_list(part)}'], name='vpkcorr', preamble=PRE)
-        if vals is None:
-            ck.obligation('correspondence:machine', False, 'model could not be evaluated')
-            ck.tie_broken.append('correspondence VPK machine: model evaluation failed')
-            return
-        res = parse_coq_N_list(vals[0])
-        bad += [(lo + i, r) for i, r in enumerate(res) if r != 0]
+    gfn = ('(fun c : vcfg * list op * list N * list obs_t * (N * N) * list (N * (N * N)) => '
+           'let \'(cf, ops, tr, fin, dsk, ars) := c in check_gcase g_place_table g_wprog g_rprog cf ops tr fin dsk ars)')
+    for plain, f in ((True, gfn), (False, fn)):
+        idx = [i for i, (pl, _) in enumerate(lits) if pl == plain]
+        for lo in range(0, len(idx), 250):
+            part = idx[lo:lo + 250]
+            vals = ck.coq_eval(IMPORTS, [f'map {f} {coq_list(lits[i][1] for i in part)}'], name='vpkcorr', preamble=PRE)
+            if vals is None:
+                ck.obligation('correspondence:machine', False, 'model could not be evaluated')
+                ck.tie_broken.append('correspondence VPK machine: model evaluation failed')
+                return
+            res = parse_coq_N_list(vals[0])
+            bad += [(i, r) for i, r in zip(part, res) if r != 0]
     what = {1: 'outside the model (write_dirfile overflow, failing load_dirfile() on the same object, __exit__ table not understood)', 2: 'per-operation codes/summaries', 3: 'final per-file contents/verify',
             4: '_dir file bytes (length, crc32)', 5: 'archive files (length, crc32)'}
     ck.obligation('correspondence:machine', not bad,
-                  f'{len(lits)} histories, model SM/Vpk.v + SM/VpkApi.v xrun over the translated __exit__ table (vm_compute, real CRC-32) vs srctools.vpk on temp directories: '
+                  f'{len(lits)} histories ({sum(1 for pl, _ in lits if pl)} plain ones through SM/VpkGenMachine.v gstep over the translated placement table and write_dirfile / load_dirfile programs, '
+                  f'the others through SM/VpkApi.v xrun over the translated __exit__ table; vm_compute, real CRC-32) vs srctools.vpk on temp directories: '
                   f'{len(bad)} disagreements' + (f'; first: {what.get(bad[0][1])}' if bad else ''))
     if kept:
         ck.sample({'history': kept[min(12, len(kept) - 1)], 'compared': 'codes, per-file (len,crc32,verify), _dir bytes, archives'})
@@ -965,7 +1113,7 @@ def corr_decode(ck: Ck) -> None:
     """Independent decode: the bytes the implementation wrote (and truncations of them) through the model decoder,
     against what the implementation itself loads from those bytes."""
     from srctools.vpk import VPK
-    n = bud(ck, 100, 300, 1200)
+    n = bud(ck, 50, 300, 1200)
     lits = []
     nbad_files = 0
     d = tempfile.mkdtemp(prefix='c13d_', dir=os.environ.get('VERIF_SCRATCH', '/var/tmp'))
@@ -977,6 +1125,9 @@ def corr_decode(ck: Ck) -> None:
                            for o in case['ops']]
             try:
                 got = run_impl(case)
+            except ImplTimeout as e:
+                ck.violation('implementation-hangs', f'the history does not finish: {e}', {'case': case, 'how': 'checks.c13.check_case(case)'})
+                continue
             except Exception:      # noqa
                 continue
             raw = got['disk']
@@ -1005,31 +1156,35 @@ def corr_decode(ck: Ck) -> None:
                 with open(p, 'wb') as f:
                     f.write(v)
                 try:
-                    vp = VPK(p, mode='r')
-                    ents = {(i.dir, i._filename, i.ext): (i.crc, dg(i.start_data), i.arch_index, i.offset, i.arch_len) for i in vp}
-                    if kind == 'v1':
-                        v1_ents = (ents, vp.footer_data)
-                    elif kind == 'v2' and v1_ents is not None and (v1_ents != (ents, vp.footer_data) or vp.version != 2):
-                        # oracle, independent of the model: the version-2 copy must list the same entries and trailing data
-                        ck.violation('v2-entries-differ', f'a version-2 copy of a directory written by write_dirfile loads {len(ents)} entries / '
-                                     f'{len(vp.footer_data)} footer bytes (version {vp.version}); the version-1 file has {len(v1_ents[0])} / {len(v1_ents[1])}',
-                                     {'v2_file_hex': v.hex()[:6000], 'how': 'write the bytes to x_dir.vpk, open with VPK(mode="r"), compare with the same file with version 1 and without bytes 12..28'})
-                    el = coq_list(f'({c_key(k)}, ({c}, {c_dg(pd)}, {c_idx(x)}, {o}, {l}))' for k, (c, pd, x, o, l) in sorted(ents.items()))
-                    exp = f'(Some ({vp.version}, {el if el != "[]" else "@nil ent_t"}, {c_dg(dg(vp.footer_data))}))'
-                    if ents:
-                        ck.seen(('dec', v))
-                    if kind == 'v2':
-                        # a version-2 archive is read-only in effect: write_dirfile must refuse before touching the file
-                        va = VPK(p, mode='a')
-                        try:
-                            va.write_dirfile()
-                            refused = False
-                        except NotImplementedError:
-                            refused = True
-                        with open(p, 'rb') as f:
-                            if not refused or f.read() != v:
-                                ck.violation('v2-write_dirfile-damages-file', 'write_dirfile on a version-2 archive did not refuse, or changed the file',
-                                             {'file_hex': v.hex()[:4000]})
+                  with impl_deadline():
+                      vp = VPK(p, mode='r')
+                      ents = {(i.dir, i._filename, i.ext): (i.crc, dg(i.start_data), i.arch_index, i.offset, i.arch_len) for i in vp}
+                      if kind == 'v1':
+                          v1_ents = (ents, vp.footer_data)
+                      elif kind == 'v2' and v1_ents is not None and (v1_ents != (ents, vp.footer_data) or vp.version != 2):
+                          # oracle, independent of the model: the version-2 copy must list the same entries and trailing data
+                          ck.violation('v2-entries-differ', f'a version-2 copy of a directory written by write_dirfile loads {len(ents)} entries / '
+                                       f'{len(vp.footer_data)} footer bytes (version {vp.version}); the version-1 file has {len(v1_ents[0])} / {len(v1_ents[1])}',
+                                       {'v2_file_hex': v.hex()[:6000], 'how': 'write the bytes to x_dir.vpk, open with VPK(mode="r"), compare with the same file with version 1 and without bytes 12..28'})
+                      el = coq_list(f'({c_key(k)}, ({c}, {c_dg(pd)}, {c_idx(x)}, {o}, {l}))' for k, (c, pd, x, o, l) in sorted(ents.items()))
+                      exp = f'(Some ({vp.version}, {el if el != "[]" else "@nil ent_t"}, {c_dg(dg(vp.footer_data))}))'
+                      if ents:
+                          ck.seen(('dec', v))
+                      if kind == 'v2':
+                          # a version-2 archive is read-only in effect: write_dirfile must refuse before touching the file
+                          va = VPK(p, mode='a')
+                          try:
+                              va.write_dirfile()
+                              refused = False
+                          except NotImplementedError:
+                              refused = True
+                          with open(p, 'rb') as f:
+                              if not refused or f.read() != v:
+                                  ck.violation('v2-write_dirfile-damages-file', 'write_dirfile on a version-2 archive did not refuse, or changed the file',
+                                               {'file_hex': v.hex()[:4000]})
+                except ImplTimeout as e:
+                    ck.violation('implementation-hangs:load_dirfile', f'opening a {kind} directory file does not finish: {e}', {'file_hex': v.hex()[:6000], 'how': 'write the bytes to x_dir.vpk, VPK(path, mode="r")'})
+                    continue
                 except Exception as e:      # noqa
                     exp = 'None'
                     nbad_files += 1
@@ -1044,7 +1199,7 @@ def corr_decode(ck: Ck) -> None:
     bad = []
     for lo in range(0, len(lits), 200):
         part = lits[lo:lo + 200]
-        vals = ck.coq_eval(IMPORTS, [f'bad_idx (fun c : bytes * option (N * list ent_t * (N * N)) => check_decode_v g_dcfg (fst c) (snd c)) 0 {coq_list(part)}'],
+        vals = ck.coq_eval(IMPORTS, [f'bad_idx (fun c : bytes * option (N * list ent_t * (N * N)) => check_decode_p g_dcfg g_rprog (fst c) (snd c)) 0 {coq_list(part)}'],
                            name='vpkdec', preamble=PRE)
         if vals is None:
             ck.obligation('correspondence:decode', False, 'model could not be evaluated')
@@ -1053,7 +1208,7 @@ def corr_decode(ck: Ck) -> None:
         bad += [lo + i for i in parse_coq_N_list(vals[0])]
     ck.obligation('correspondence:decode', not bad,
                   f'{len(lits)} directory files written by the implementation, damaged copies and version-2 copies ({nbad_files} it rejects), decoded '
-                  f'by the model decoder Fmt/VpkDirV2.v dec_file_v (version, entries, footer) vs load_dirfile: {len(bad)} disagreements')
+                  f'by Fmt/VpkDirRead.v rexec over the program compiled from load_dirfile (version, entries, footer) vs load_dirfile: {len(bad)} disagreements')
     if bad:
         ck.tie_broken.append('correspondence VPK directory decode (Fmt/VpkDir.v dec_file vs VPK.load_dirfile)')
         ck.extra['decode_disagreement'] = {'literal': lits[bad[0]][:3000]}
@@ -1062,7 +1217,7 @@ def corr_decode(ck: Ck) -> None:
 def corr_names(ck: Ck) -> None:
     """Fmt/VpkName.v file_parts / join_parts vs _get_file_parts / _join_file_parts."""
     from srctools.vpk import _get_file_parts, _join_file_parts
-    n = bud(ck, 1500, 6000, 20000)
+    n = bud(ck, 1000, 6000, 20000)
     forms = []
     for nm in NAME_POOL + TRAILING_DOT + BAD_NAMES:
         for k in 's23':
@@ -1100,15 +1255,16 @@ def corr_names(ck: Ck) -> None:
     for lo in range(0, len(lits), 500):
         part = lits[lo:lo + 500]
         vals = ck.coq_eval(IMPORTS + ['SV.Fmt.VpkName', 'SV.Fmt.VpkNameSplit'], [
-            'bad_idx (fun c : nameform * key * bytes => andb (key_eqb (file_parts_k posix_normpath g_ext_split (fst (fst c))) (snd (fst c))) '
-            f'(bytes_eqb (join_parts (snd (fst c))) (snd c))) 0 {coq_list(part)}'], name='vpknames', preamble=PRE)
+            'bad_idx (fun c : nameform * key * bytes => andb (key_eqb (file_parts_g posix_normpath g_ext_split g_parts (fst (fst c))) (snd (fst c))) '
+            f'(match join_k g_join_table (snd (fst c)) with Some j => bytes_eqb j (snd c) | None => false end)) 0 {coq_list(part)}'], name='vpknames', preamble=PRE)
         if vals is None:
             ck.obligation('correspondence:names', False, 'model could not be evaluated')
             ck.tie_broken.append('correspondence VPK names: model evaluation failed')
             return
         bad += [lo + i for i in parse_coq_N_list(vals[0])]
     ck.obligation('correspondence:names', not bad,
-                  f'{len(lits)} name forms, Fmt/VpkNameSplit.v file_parts_k over the translated split statement / join_parts vs _get_file_parts/_join_file_parts: {len(bad)} disagreements')
+                  f'{len(lits)} name forms, Fmt/VpkNameJoin.v file_parts_g over the translated description and split statement of _get_file_parts / join_k over the '
+                  f'translated table of _join_file_parts vs the two functions: {len(bad)} disagreements')
     if bad:
         ck.tie_broken.append('correspondence VPK names (Fmt/VpkName.v vs _get_file_parts)')
         ck.extra['names_disagreement'] = {'form': repr(forms[bad[0]]), 'impl': repr(_get_file_parts(forms[bad[0]]))}
@@ -1153,11 +1309,15 @@ def corr_nullstr(ck: Ck) -> None:
     for b in streams[:n + len(fixed)]:
         f = io.BytesIO(b)
         try:
-            got = [x.encode('ascii', 'surrogateescape') for x in vpkmod.iter_nullstr(f)]
+            with impl_deadline():
+                got = [x.encode('ascii', 'surrogateescape') for x in vpkmod.iter_nullstr(f)]
             ex = f'(Some ({coq_list(c_dg(dg(x)) for x in got) if got else "@nil (N * N)"}, {len(b) - f.tell()}))'
             ck.hist('nullstr_stream', 'section read' + (' (a string of >= 255 bytes)' if any(len(x) >= 255 for x in got) else ''))
             if got:
                 ck.seen(('ns', b))
+        except ImplTimeout as e:
+            ck.violation('implementation-hangs:iter_nullstr', f'iter_nullstr does not finish on a {len(b)}-byte stream: {e}', {'stream_hex': b.hex()[:4000], 'how': 'list(srctools.vpk.iter_nullstr(io.BytesIO(bytes.fromhex(stream_hex))))'})
+            continue
         except Exception:      # noqa
             ex = 'None'
             ck.hist('nullstr_stream', 'generator raises')
@@ -1391,6 +1551,19 @@ def corr_archnames(ck: Ck) -> list[str]:
 
 
 # ------------------------------------------------------------------------------------------------ main
+STAGE_DEADLINE_S = 900      # backstop for a whole stage (each takes 2-15 s in the quick tier, up to ~4 min in the thorough tier)
+
+
+def staged(ck: Ck, fn) -> None:
+    """Run one stage; a call into the implementation that does not return (per-call deadline inside the stage, or this backstop) ends
+    as a violation with what was running, never as a hung check."""
+    try:
+        with impl_deadline(STAGE_DEADLINE_S):
+            fn(ck)
+    except ImplTimeout as e:
+        ck.violation('implementation-hangs', f'stage {fn.__name__}: {e}', {'stage': fn.__name__, 'how': f'checks.c13.{fn.__name__} with a deadline'})
+
+
 def run(ck: Ck) -> None:
     ck.rule = ('histories: random sequences of new/add/write/del/write_dirfile/reopen(r,w,a)/with-block exit (normal, exception)/load_dirfile() on '
                'the same object over a pool of names that collide, 5% with a tree string (folder, nested folder path, stem, extension) of a boundary '
@@ -1406,10 +1579,10 @@ def run(ck: Ck) -> None:
                'the file each of the three get_arch_filename sites really opens; non-trivial = a directory VPK. NUL-terminated streams: '
                'sections of strings incl. lengths around 255/256 and damaged streams. nested dicts: 1..8 files over 3 extensions x 4 folders x 3 '
                'stems then 1..6 deletes; sequences of 2..14 new_file/del from an empty archive with 4 membership probes. folders: add_folder over 3 '
-               'directory trees x 5 prefixes, extract_all.')
+               'directory trees x 5 prefixes, extract_all; add_file/new_file with root= (6 cases), script_write on the 3 trees.')
     ck.trusted.append('hand-written models Fmt/VpkDir.v, Fmt/VpkDirV2.v, SM/Vpk.v, Fmt/VpkName.v, string primitives of Fmt/VpkArchName.v (tied by '
                       'differential correspondence on every run); zlib.crc32 incl. its chaining property; posixpath.normpath; '
-                      'translate/c13_archname.py, c13_nullstr.py, c13_nested.py, c13_api.py; hand-written SM/VpkApi.v, SM/VpkNested.v, '
+                      'translate/c13_archname.py, c13_nullstr.py, c13_nested.py, c13_api.py, c13_names.py, c13_dirprog.py; hand-written SM/VpkApi.v, SM/VpkNested.v, '
                       'SM/VpkNestedMap.v, Fmt/VpkNullStr.v (tied by the translated descriptions and by correspondence)')
     ck.assumptions += [
         'the data values written in one history, together with the empty string, have pairwise different CRC-32 unless equal (premise collision_free of c13_vpk_refines_map: FileInfo.write skips a write whose checksum equals the stored one; checked with zlib on every generated history, see input_distribution.refinement_premise)',
@@ -1422,10 +1595,12 @@ def run(ck: Ck) -> None:
     ok_t = ck.translate('VpkNullStr_gen', c13_nullstr.translate) and ok_t
     ok_t = ck.translate('VpkNested_gen', c13_nested.translate) and ok_t
     ok_t = ck.translate('VpkApi_gen', c13_api.translate) and ok_t
-    built = ok_t and ck.build(['Props/C13.vo', 'SM/VpkCorr.vo', 'Gen/VpkPlace_gen.vo', 'Gen/VpkArchName_gen.vo', 'Gen/VpkNullStr_gen.vo', 'Gen/VpkNested_gen.vo', 'Gen/VpkApi_gen.vo'])
+    ok_t = ck.translate('VpkNames_gen', c13_names.translate) and ok_t
+    ok_t = ck.translate('VpkDirProg_gen', c13_dirprog.translate) and ok_t
+    built = ok_t and ck.build(['Props/C13.vo', 'SM/VpkCorr.vo', 'Gen/VpkPlace_gen.vo', 'Gen/VpkArchName_gen.vo', 'Gen/VpkNullStr_gen.vo', 'Gen/VpkNested_gen.vo', 'Gen/VpkApi_gen.vo', 'Gen/VpkNames_gen.vo', 'Gen/VpkDirProg_gen.vo'])
     if built:
         ck.theorems('Props/C13.v')
-        ck.instance_obligations(IMPORTS + ['SV.Fmt.VpkNameSplit', 'SV.Props.C13'], {
+        ck.instance_obligations(IMPORTS + ['SV.Fmt.VpkNameSplit', 'SV.SM.VpkProperty', 'SV.Props.C13'], {
             'format_constants_in_range': 'dcfg_ok g_dcfg',
             'reader_and_writer_use_the_same_dir_sentinel': 'N.eqb g_dir_index_read g_dir_index_write',
             'reader_and_writer_use_the_same_terminator': 'N.eqb g_term_read g_term_write',
@@ -1444,6 +1619,12 @@ def run(ck: Ck) -> None:
             'unrepresentable_names_rejected': 'g_chk_name',
             'instance_satisfies_theorem_premises': 'andb (vcfg_ok (g_vcfg true (Some 1024%N))) (vcfg_ok (g_vcfg false None))',
             'ext_split_is_at_the_last_dot': 'split_kind_ok g_ext_split',
+            # the two name helpers executed symbolically (Gen/VpkNames_gen.v): premises of c13_join_table_is_model /
+            # c13_get_parts_description_is_model / c13_generated_listed_name_resolves
+            'join_file_parts_puts_the_separators_where_the_parts_are': 'join_table_ok g_join_table',
+            'get_file_parts_takes_the_parts_from_the_three_forms': 'gparts_ok g_parts',
+            'fileinfo_filename_is_join_file_parts': 'g_fileinfo_filename_is_join',
+            'every_name_argument_is_resolved_by_get_file_parts': 'g_names_resolved_by_get_file_parts',
             # archive file names (Gen/VpkArchName_gen.v): premises of c13_dir_prefix_exact / c13_arch_names_coincide / c13_arch_filename_*
             'filename_setter_removes_the_tested_suffix': 'setter_ok g_ncfg',
             'write_site_prefix_is_the_dir_prefix': 'site_ok g_ncfg (n_writer g_ncfg)',
@@ -1454,6 +1635,31 @@ def run(ck: Ck) -> None:
             'archive_sites_same_folder_and_index': 'andb g_index_args_ok g_sites_join_folder',
             'archive_appended_at_end_and_read_at_offset': 'g_archive_append_at_end',
             'deprecated_file_prefix_setter_consistent': 'g_prefix_setter_consistent',
+            # the statement structure of write_dirfile / load_dirfile (Gen/VpkDirProg_gen.v): premises of c13_write_dirfile_program_is_encoder /
+            # c13_load_dirfile_program_is_decoder / c13_dirfile_programs_roundtrip; the finer ones point at one site
+            # the hypotheses of c13_property, all at once, for the objects generated from today's source (both kinds of archive)
+            'c13_property_hypotheses_hold_for_todays_source':
+                'andb (c13_hyps g_exit_table (g_vcfg true (Some 1024%N)) g_place_table g_read_table g_ins_ext g_ins_dir g_del_prog g_ncodec g_wprog g_rprog g_ext_split g_parts g_join_table g_ncfg) '
+                '(c13_hyps g_exit_table (g_vcfg false None) g_place_table g_read_table g_ins_ext g_ins_dir g_del_prog g_ncodec g_wprog g_rprog g_ext_split g_parts g_join_table g_ncfg)',
+            'write_dirfile_program_is_the_directory_encoder': 'wprog_ok g_wprog',
+            'write_dirfile_refuses_version_2_before_opening_the_file': 'g_write_refuses_v2',
+            'write_dirfile_loops_ext_folder_file_sorted': 'andb (w_nest_ok g_wprog) (w_sorted g_wprog)',
+            'write_dirfile_skips_empty_dicts': 'andb (w_ext_skip g_wprog) (w_dir_skip g_wprog)',
+            'write_dirfile_header_mark_then_length_patched_after_footer': 'andb (if list_eq_dec wop_eq_dec (w_before g_wprog) (w_before wprog_pinned) then true else false) '
+                                                                          '(if list_eq_dec wop_eq_dec (w_after g_wprog) (w_after wprog_pinned) then true else false)',
+            'write_dirfile_one_nul_after_each_level': 'andb (if list_eq_dec wop_eq_dec (w_dir_post g_wprog) (w_dir_post wprog_pinned) then true else false) '
+                                                      '(if list_eq_dec wop_eq_dec (w_ext_post g_wprog) (w_ext_post wprog_pinned) then true else false)',
+            'write_dirfile_string_then_entry_then_preload': 'andb (if list_eq_dec wop_eq_dec (w_file_body g_wprog) (w_file_body wprog_pinned) then true else false) '
+                                                            '(andb (if list_eq_dec wop_eq_dec (w_ext_pre g_wprog) (w_ext_pre wprog_pinned) then true else false) '
+                                                            '(if list_eq_dec wop_eq_dec (w_dir_pre g_wprog) (w_dir_pre wprog_pinned) then true else false))',
+            'load_dirfile_program_is_the_directory_decoder': 'rprog_ok g_rprog',
+            'load_dirfile_header_checks_v2_skip_then_mark': 'if list_eq_dec rop_eq_dec (r_before g_rprog) (r_before rprog_pinned) then true else false',
+            'load_dirfile_loops_ext_folder_file_stored_in_that_nesting': 'andb (r_nest_ok g_rprog) (andb (if list_eq_dec rop_eq_dec (app (r_ext_pre g_rprog) (app (r_dir_pre g_rprog) (r_dir_post g_rprog))) nil then true else false) true)',
+            'load_dirfile_entry_sentinels_terminator_preload': 'if list_eq_dec fop_eq_dec (r_file_body g_rprog) (r_file_body rprog_pinned) then true else false',
+            'load_dirfile_early_exit_after_extension_then_footer': 'andb (if list_eq_dec rop_eq_dec (r_ext_post g_rprog) (r_ext_post rprog_pinned) then true else false) '
+                                                                   '(if list_eq_dec rop_eq_dec (r_after g_rprog) (r_after rprog_pinned) then true else false)',
+            # the decision tables have a meaning of their own (SM/VpkPlaceTable.v): premises of c13_write_table_is_write_info / c13_read_table_is_read_info
+            # are write_placement_table_matches_model / read_and_verify_take_the_bytes_from_where_write_put_them above
             # NUL-terminated strings of the tree (Gen/VpkNullStr_gen.v): premises of c13_nullstr_*
             'nullstr_reader_reads_strings_of_any_length': 'reader_ok (nc_reader g_ncodec)',
             'nullstr_writer_terminates_with_one_nul': 'bytes_eqb (nc_term g_ncodec) (0%N :: nil)',
@@ -1491,12 +1697,13 @@ def run(ck: Ck) -> None:
         import time as _t
         t0 = _t.time()
         for fn in (corr_archnames, corr_nullstr, corr_nested, corr_machine, corr_decode, corr_names):
-            fn(ck)
+            staged(ck, fn)
             if os.environ.get('C13_TIMING'):
                 print(f'  [timing] {fn.__name__}: {_t.time() - t0:.1f}s'); t0 = _t.time()
     t0 = __import__('time').time()
-    search(ck)
-    folder_stream(ck)
+    staged(ck, search)
+    staged(ck, folder_stream)
+    staged(ck, root_and_script_stream)
     if os.environ.get('C13_TIMING'):
         print(f'  [timing] search: {__import__("time").time() - t0:.1f}s')
     keys = {v['key'] for v in ck.violations}
@@ -1530,9 +1737,10 @@ def replay(data: dict) -> int:
             print('    expect:', {k: (dg(v), True) for k, v in e['map'].items()})
         print('filenames():', got['names'])
         return 0
-    if 'folder_case' in r:
-        print(r['folder_case'])
-        return 0
+    for k in ('folder_case', 'root_case', 'script_case'):
+        if k in r:
+            print(r[k])
+            return 0
     if 'fname' in r:
         dp, sites = arch_sites_impl(r['fname'], list(r['indexes']))
         print('VPK file name:', r['fname'], '-> _dir_prefix', repr(dp))
